@@ -46,7 +46,9 @@ def validChars : Str := ['r', 'w', 'x', 't', 'a', 'b', '+']
 def firstChars : Str := ['r', 'w', 'x', 'a']
 
 /-- `Mode.validate`: `ValueError` unless non-empty, only valid characters, starts with one of
-`rwxa`, and not both `t` and `b`. -/
+`rwxa`, not both `t` and `b`, and — the two rules of `io.open`, since `fix: Mode.validate rejects
+the mode strings io.open rejects` — no repeated character (`len(set(mode)) != len(mode)`) and exactly
+one of `r w x a` (`sum(c in mode for c in "rwxa") != 1`). -/
 def validate (m : Str) : Res Unit :=
   match m with
   | [] => .err .ValueError
@@ -54,6 +56,8 @@ def validate (m : Str) : Res Unit :=
     if !(m.all fun c => validChars.contains c) then .err .ValueError
     else if !(firstChars.contains c0) then .err .ValueError
     else if has m 't' && has m 'b' then .err .ValueError
+    else if m.eraseDups.length != m.length then .err .ValueError
+    else if (firstChars.filter fun c => has m c).length != 1 then .err .ValueError
     else .ok ()
 
 /-- `Mode.validate_bin` -/
